@@ -1056,6 +1056,12 @@ reg(Prop("C20", "Each training position is processed exactly once per tuning epo
                          "break at a random item, another (or the same) value ranged to its end inside the loop body, values "
                          "interleaved; and one Batches value ranged 2..3 times with Chunks(batch) inside (hoisted schedule) - "
                          "every traversal has to yield the whole partition again; non-trivial = non-empty range"),
+          StreamCfg("c20_huge", 2, 12, judge="judge_c20_huge", model=False,
+                    rule="files of 9 and 17 MiB (thorough: up to 40 MiB, i.e. beyond the 32 MiB read buffer) generated from a "
+                         "seed, with a non-blank line starting exactly on every multiple of 1 MiB (so on 4 / 8 / 16 / 32 MiB), "
+                         "lines ending exactly there and blank lines next to them, read through the tuner's Batches/Chunks "
+                         "schedule; the harness compares the multisets of delivered and expected lines, the judge reads the "
+                         "counters; implementation judged by the specification only"),
           StreamCfg("c20_big", 2, 8, judge="judge_c20_file", model=False,
                     rule="files of more than NumLinesInBatch (and more than one chunk of) short lines read through the "
                          "tuner's own Batches/Chunks schedule; implementation judged by the specification only")],
